@@ -49,8 +49,14 @@ def run(ck, build):
             return getattr(self._ck, n)
     C16.add_udiv_to_fin()
     pk = _AsPremise(ck)
-    _nc, _nl, offs_, incs_ = C16.census(pk, mod, "H/N0")
-    C16.guard_rule(pk, mod, offs_, incs_, "H/N0")
+    snap_ = ck.snapshot()
+    try:
+        _nc, _nl, offs_, incs_ = C16.census(pk, mod, "H/N0")
+        C16.guard_rule(pk, mod, offs_, incs_, "H/N0")
+    except Broken as e:
+        # C16's rules do not follow this code: the premise is then not decided here (C16 itself says so); this check's own rules stand
+        ck.rollback(snap_)
+        ck.not_decided.append("R-C15-RESEED (where automatic reseeds fall): C16's rules do not follow the code - %s" % str(e)[:160])
     ck.floor("R-C15", "obligations over entry points / block-length classes", len(ck.obligations), 400)
     fx = Module(build.fixture_facts(os.path.join(os.path.dirname(os.path.dirname(os.path.dirname(__file__))), "fixtures", "c15_bad.c")))
     sub = type(ck)("C15-fixture")
